@@ -38,3 +38,30 @@ pub fn span_opt_json(s: Span) -> Value {
 pub fn catch<T>(f: impl FnOnce() -> T) -> Result<T, String> {
     std::panic::catch_unwind(std::panic::AssertUnwindSafe(f)).map_err(|p| panic_msg(&p))
 }
+
+/// Token string in which invisible (None-delimited) groups are visible as U+27E6 / U+27E7 brackets
+/// (`to_string()` prints them transparently, which would hide a stray group in a converted value).
+pub fn toks_explicit(ts: proc_macro2::TokenStream) -> String {
+    use proc_macro2::{Delimiter, TokenStream, TokenTree};
+    fn conv(ts: TokenStream) -> TokenStream {
+        ts.into_iter()
+            .flat_map(|t| -> Vec<TokenTree> {
+                match t {
+                    TokenTree::Group(g) if g.delimiter() == Delimiter::None => {
+                        let mut v: Vec<TokenTree> = vec![TokenTree::Ident(proc_macro2::Ident::new("__GROUP_OPEN__", g.span()))];
+                        v.extend(conv(g.stream()));
+                        v.push(TokenTree::Ident(proc_macro2::Ident::new("__GROUP_CLOSE__", g.span())));
+                        v
+                    }
+                    TokenTree::Group(g) => {
+                        let mut n = proc_macro2::Group::new(g.delimiter(), conv(g.stream()));
+                        n.set_span(g.span());
+                        vec![TokenTree::Group(n)]
+                    }
+                    other => vec![other],
+                }
+            })
+            .collect()
+    }
+    conv(ts).to_string().replace("__GROUP_OPEN__", "\u{27e6}").replace("__GROUP_CLOSE__", "\u{27e7}")
+}
